@@ -81,7 +81,12 @@ class FakeTransport:
         self.closed = True
         if self.tcp:
             # asyncio schedules protocol.connection_lost for a closed stream transport
-            asyncio.get_running_loop().call_soon(self.owner._connection_lost)  # noqa: SLF001
+            asyncio.get_running_loop().call_soon(self._connection_lost)
+
+    def _connection_lost(self):
+        if self.owner.transport is not None:
+            self.sim.trace.append("x:tl")
+        self.owner._connection_lost()  # noqa: SLF001
 
 
 def _mk_transport_mixin():
@@ -129,6 +134,19 @@ class StubSecure(_Mixin, SecureSession):
     """SecureSession with the handshake's two request/response exchanges but no cryptography."""
 
     __slots__ = ("sim",)
+
+    def __init__(self, remote_addr, user_id, user_password, device_authentication_password=None,
+                 connection_lost_cb=None):
+        # as SecureSession.__init__, without the (slow, irrelevant here) password key derivation
+        TCPTransport.__init__(self, remote_addr=remote_addr, connection_lost_cb=connection_lost_cb)
+        self._device_authentication_code = None
+        self.user_id = user_id
+        self._user_password = bytes(16)
+        self._sequence_number = 0
+        self._sequence_number_received = -1
+        self.initialized = False
+        self._keepalive_task = None
+        self._session_status_handler = None
 
     async def connect(self):
         await self._stub_connect(True)
@@ -415,11 +433,13 @@ class Sim:
         if isinstance(body, ConnectResponse):
             arg = f":{body.communication_channel}" if body.status_code == ErrorCode.E_NO_ERROR else ":err"
         elif isinstance(body, DisconnectRequest):
-            arg = f":{int(body.communication_channel_id == self.tunnel.communication_channel)}"
+            arg = f":{body.communication_channel_id}"
         elif isinstance(body, ConnectionStateResponse):
             arg = ":ok" if body.status_code == ErrorCode.E_NO_ERROR else ":err"
         elif isinstance(body, SessionStatus):
             code = "sclose" if body.status == SecureSessionStatusCode.STATUS_CLOSE else "sstat"
+        if self.kind == "secure" and not tr.initialized and not isinstance(body, SessionResponse):
+            code, arg, note = "drop", "", ""  # the session discards plain frames before it is initialized
         self.trace.append(f"x:rx:{code}{arg}{note}")
         if ft.tcp:
             tr.data_received_callback(raw)
